@@ -240,7 +240,9 @@ func c05BuildLists(tier string) core.Source {
 // c05BuildSubdir: the sub-directory argument of a daemon upload.
 func c05BuildSubdir(tier string) core.Source {
 	drive.Quiet()
-	targets := []string{"w/..", "w/../", "w/sub/../..", "w/sub/../../canary", "w//ABS/canary", "w/out", "w/out/", "w/out/deeper", "w/absout/", "w/../canary/dir/", "w/./../x/"}
+	targets := []string{"w/..", "w/../", "w/sub/../..", "w/sub/../../canary", "w//ABS/canary", "w/out", "w/out/", "w/out/deeper", "w/absout/", "w/../canary/dir/", "w/./../x/",
+		// a sibling whose path merely starts with the module's path (dst-archive next to dst), reached by name, through links and below them
+		"w/../dst-archive/", "w/../dst-archive", "w/sub/../../dst-archive/", "w/pfx/", "w/pfx", "w/pfx/inner/", "w/abspfx/", "w/abspfx/inner/newdir/", "w//ABS/dst-archive/"}
 	type cs struct {
 		t   int
 		opt int
@@ -259,8 +261,9 @@ func c05BuildSubdir(tier string) core.Source {
 		res := core.Result{Case: fmt.Sprintf("daemon upload into sub-directory argument %q opts=%v", targets[c.t], c05Opts[c.opt])}
 		c05Canary().Materialise(dir)
 		dest := filepath.Join(dir, "dst")
-		pre := tm.Tree{tm.D("sub", 0o755, tm.Past), tm.L("out", "../canary"), tm.L("absout", filepath.Join(dir, "canary"))}
+		pre := tm.Tree{tm.D("sub", 0o755, tm.Past), tm.L("out", "../canary"), tm.L("absout", filepath.Join(dir, "canary")), tm.L("pfx", "../dst-archive"), tm.L("abspfx", filepath.Join(dir, "dst-archive"))}
 		pre.Materialise(dest)
+		tm.Tree{tm.File("x", []byte("archive x"), 0o640, tm.Past), tm.File("secret", c05Secret, 0o600, tm.Past), tm.D("inner", 0o750, tm.Past), tm.File("inner/keep", []byte("keep"), 0o644, tm.Past)}.Materialise(filepath.Join(dir, "dst-archive"))
 		snap := func() tm.Tree {
 			t, _ := tm.Snapshot(dir, false)
 			var out tm.Tree
